@@ -195,6 +195,11 @@ class Row(Vector):
 		# Fallback to standard vector slicing/masking
 		return super().__getitem__(key)
 
+	def __setitem__(self, key, value):
+		# A Row is a read-only snapshot of one table row: refuse before anything changes
+		# (Vector.__setitem__ would already have updated the dtype when the storage swap fails)
+		raise SerifTypeError("A Row is a read-only view of a table row; assign through the table: t[row, column] = value")
+
 	def __iter__(self):
 		# Fast iteration for unpacking: x, y, z = row
 		idx = self._index
